@@ -32,10 +32,15 @@ let cmd_dict (tk : string list) : bool =
      | Some i -> st.images <- (img, i) :: List.remove_assoc img st.images
      | None -> ());
     pr "SKIP save\n"; true
+  | ["qtimeout"; _] -> pr "SKIP qtimeout\n"; true
+  | ["settag"; img; img2; t] ->
+    (* the retagged image belongs to no kind the loaders accept *)
+    st.images <- (img2, { kind = "RETAGGED"; params = [] }) :: List.remove_assoc img2 st.images;
+    pr "settag %s %s %s\n" img img2 t; true
   | "load" :: name :: img :: how :: _ ->
     (match List.assoc_opt img st.images with
      | Some i ->
-       let routed = (how = "generic" && i.kind <> "BLOCKS") || how = i.kind in
+       let routed = i.kind <> "RETAGGED" && (how = "generic" || how = i.kind) in
        if routed then begin
          st.dicts <- (name, i) :: List.remove_assoc name st.dicts;
          pr "SKIP load-ok %s\n" name
